@@ -124,13 +124,16 @@ PROPS = {
              'First sentence proved: support / _support (dd.bdd and through dd.autoref) and is_essential against ghost family HASLVL (a node '
              'at the variable\'s level is reachable; = "depends on" by lemma L-ESS): for an arbitrary level, it is in the result iff '
              'reachable; visited-set pruning and the early exit when every level is present, the latter with an ASSUMED pigeonhole fact '
-             'about set cardinality. Model counting (2**gap arithmetic, rank of the support levels) and the generator pipeline '
+             'about set cardinality. The counting recursion _sat_len is proved against a ghost count CNTF defined by its recursion over the '
+             'diagram for the given level compression (memo validity, complement handling, non-negative exponents; that CNTF is the number of '
+             'models is the textbook argument, ASSUMED - the driver compares count with truth tables). The wrapper count (rank of the support '
+             'levels) and the generator pipeline '
              '(pick_iter/_sat_iter, _enumerate_minterms) are outside the generator: pick_iter and pick are stated as observed contracts in '
              'the language of the model (each assignment satisfies u however completed, mentions every care variable, no overlap, the '
              'models are covered; None only for false) and evaluated by z3 on real executions under every assignment; count, pick, '
              'pick_iter by run-time contracts: all functions of 3 variables with 0-2 unused variables, all orders, managers of 10-14 '
              'variables, with collections between the queries. Category "other": mixed proof + bounded.',
-             bounded=['vlib.rtc.c10'], tb=['count/_sat_len, pick_iter/_sat_iter, _enumerate_minterms: bounded / observed only'],
+             bounded=['vlib.rtc.c10'], tb=['count (wrapper), pick_iter/_sat_iter, _enumerate_minterms: bounded / observed only', 'CNTF recursion = number of models: assumed'],
              design_ref='DESIGN.md 7/C10'),
     'C11': P('proof',
              'dd.bdd._copy_bdd with two distinct managers, copy_bdd and BDD.copy are proved: result in the target denotes the source function '
